@@ -180,6 +180,18 @@ def p_lcat(I, a, n):
     return SV('slist', lt.lcat(x.t, y.t), extra={k: v for k, v in x.extra.items() if k != 'backref'})
 
 
+def p_kind_is(I, a, n):
+    """kind_is(x, 'int' | 'real' | 'str' | 'bytes'): the kind of the (dynamically typed) value x on this path"""
+    from .calls import literal_str
+    want = literal_str(a[1])
+    k = a[0].kind
+    if k == 'bool':
+        k = 'int'
+    if k == 'mobj' and I.is_byteslike(a[0]):
+        k = 'bytes'
+    return mk_bool(k == want)
+
+
 def p_keys_of(I, a, n):
     """the names of the items of a packet, in insertion order"""
     from .objects import odict_of
@@ -243,4 +255,4 @@ def p_src_R(I, a, n):
 PRIMS = {'cap': p_cap, 'comparable': p_comparable, 'coerce_like': p_coerce_like, 'coercible': p_coercible, 'src_T': p_src_T, 'src_R': p_src_R, 'be': p_be, 'le': p_le, 'sl': p_sl, 'cat': p_cat, 'low': p_low, 'shr': p_shr, 'pow2': p_pow2, 'tb': p_tb,
          'tl': p_tl, 'bat': p_bat, 'rpow': p_rpow, 'rpow2': p_rpow2, 'bfind': p_bfind, 'band': p_band, 'bor': p_bor,
          'toreal': p_toreal, 'i2r': p_toreal, 'at': p_at, 'append': p_append, 'is_int_valued': p_is_int_valued,
-         'decode': p_decode, 'decodable': p_decodable, 'cls_is': p_cls_is, 'warned': p_warned, 'mset': p_mset, 'mdel': p_mdel, 'keys_of': p_keys_of, 'events': p_events, 'events0': p_events0, 'lcat': p_lcat}
+         'decode': p_decode, 'decodable': p_decodable, 'cls_is': p_cls_is, 'warned': p_warned, 'mset': p_mset, 'mdel': p_mdel, 'keys_of': p_keys_of, 'kind_is': p_kind_is, 'events': p_events, 'events0': p_events0, 'lcat': p_lcat}
